@@ -723,6 +723,17 @@ Definition c18_step (o : op) (x : obs) : sv :=
   | OHdr 1 fld raw v =>
       if (fld <=? 28) && (length raw =? struct_len fld)%nat
       then sv_of (match x with XBytes r => list_eqb r (spec_set fld raw v) | _ => false end) (100 + fld) else sv_triv
+  | OHdr 12 fld raw v =>
+      (* a view over a longer buffer: the struct-sized prefix is what is read / rewritten, the rest is untouched *)
+      if (fld <=? 28) && (struct_len fld <=? length raw)%nat
+      then sv_of (match x with XVal r => r =? spec_get fld (firstn (struct_len fld) raw) | _ => false end) (300 + fld)
+      else sv_triv
+  | OHdr 13 fld raw v =>
+      if (fld <=? 28) && (struct_len fld <=? length raw)%nat
+      then sv_of (match x with
+                  | XBytes r => list_eqb r (spec_set fld (firstn (struct_len fld) raw) v ++ skipn (struct_len fld) raw)
+                  | _ => false end) (400 + fld)
+      else sv_triv
   | OHdr 2 _ raw v =>
       (* transport header from bytes: succeeds exactly when reserved bits are zero and the version matches *)
       if (length raw =? 4)%nat then
